@@ -250,19 +250,27 @@ static void do_op(void)
   }
   else if (!strcmp(op, "slink")) {
     ESL_MSA *msa = build_msa(); int *c = NULL, *nin = NULL, nc = -1, st; int pre = (int) h_argi("pre", 0), i;
+    /* modes=<c><nin><nc>: each optional result 0 = not requested (NULL), 1 = allocated by the callee (pointer to NULL), 2 = array
+     * provided by the caller; <nc> 0/1. pre=0..3 are the four combinations driven since round 2. */
+    static const char *premodes[4] = { "111", "221", "011", "101" };
+    const char *md = h_arg("modes"); int cm, nm, ncm, nlen = -1;
     if (!msa) { h_out("bad-op"); return; }
-    if (pre == 1) {   /* caller-provided result arrays (the other documented calling convention) */
-      c = malloc(sizeof(int) * msa->nseq); nin = malloc(sizeof(int) * msa->nseq);
-      for (i = 0; i < msa->nseq; i++) { c[i] = -7; nin[i] = -7; }
-    }
-    /* pre=2: assignments not requested (opt_c == NULL); pre=3: sizes not requested (opt_nin == NULL) */
-    st = esl_msacluster_SingleLinkage(msa, h_argbits("maxid"), pre == 2 ? NULL : &c, pre == 3 ? NULL : &nin, &nc);
+    if (!md) md = premodes[(pre >= 0 && pre <= 3) ? pre : 0];
+    if (strlen(md) != 3 || md[0] < '0' || md[0] > '2' || md[1] < '0' || md[1] > '2' || md[2] < '0' || md[2] > '1') { esl_msa_Destroy(msa); h_out("bad-op"); return; }
+    cm = md[0] - '0'; nm = md[1] - '0'; ncm = md[2] - '0';
+    if (cm == 2) { c   = malloc(sizeof(int) * msa->nseq); for (i = 0; i < msa->nseq; i++) c[i]   = -7; }
+    if (nm == 2) { nin = malloc(sizeof(int) * msa->nseq); for (i = 0; i < msa->nseq; i++) nin[i] = -7; }
+    st = esl_msacluster_SingleLinkage(msa, h_argbits("maxid"), cm ? &c : NULL, nm ? &nin : NULL, ncm ? &nc : NULL);
     if (st != eslOK) h_out("%s", h_status(st));
     else {
-      o_reset(); o_add("ok nc=%d c=", nc);
-      if (pre == 2) o_add("-"); else o_ilist(c, msa->nseq);
+      o_reset();
+      if (ncm) { o_add("ok nc=%d c=", nc); nlen = nc; } else o_add("ok nc=- c=");
+      if (!cm) o_add("-"); else o_ilist(c, msa->nseq);
+      if (nlen < 0 && cm)      { for (i = 0, nlen = 0; i < msa->nseq; i++) if (c[i] + 1 > nlen) nlen = c[i] + 1; }
+      if (nlen < 0 && nm == 2) { for (nlen = 0; nlen < msa->nseq && nin[nlen] != -7; nlen++) ; }
       o_add(" nin=");
-      if (pre == 3) o_add("-"); else o_ilist(nin, nc);
+      if (!nm) o_add("-"); else if (nlen < 0) o_add("?"); else o_ilist(nin, nlen);
+      if (nm == 2 && nlen >= 0) for (i = nlen; i < msa->nseq; i++) if (nin[i] != -7) { o_add(" wrote-past-nc"); break; }
       h_out("%s", ob);
     }
     free(c); free(nin); esl_msa_Destroy(msa);
